@@ -680,7 +680,14 @@ func (e *Env) quant(q string, args []ast.Expr) *Val {
 	if q == "all" && e.goal {
 		// the skolem constant's neighbours (j+1, j-1, ...) used as indices are instantiation points too
 		seen := map[string]bool{}
-		for _, m := range regexp.MustCompile(`\((\+|-) `+regexp.QuoteMeta(bv)+` [0-9]+\)`).FindAllString(body.T, -1) {
+		if fx.ct != nil && fx.ct.SeedNeighbours {
+			// opt-in per contract: lemmas that shift indices (x[j] == old(y[j+1])) need the skolem's neighbours
+			for _, m := range []string{"(+ " + bv + " 1)", "(- " + bv + " 1)"} {
+				seen[m] = true
+				extra += " (trg " + m + ")"
+			}
+		}
+		for _, m := range regexp.MustCompile(`\((\+|-) `+regexp.QuoteMeta(bv)+` [^() ]+\)`).FindAllString(body.T, -1) {
 			if !seen[m] {
 				seen[m] = true
 				extra += " (trg " + m + ")"
@@ -891,6 +898,21 @@ func (e *Env) call(x *ast.CallExpr) *Val {
 		}
 		hn, hs, _, _ := fx.mapComps(mt.Key(), mt.Elem())
 		return &Val{T: and("(not (= "+m.T+" 0))", "(select (select "+fx.heapGet(e.st, hn, hs)+" "+m.T+") "+k.T+")"), Ty: boolT}
+	case "samemap":
+		// samemap(m): the map m has exactly the keys and values it had in the pre-state (whole-row equality)
+		if e.old == nil {
+			return e.errorf("samemap() needs a pre-state")
+		}
+		m := argv(0)
+		mt, ok := m.Ty.Underlying().(*types.Map)
+		if !ok {
+			return e.errorf("samemap() on non-map")
+		}
+		hn, hs, vn, vs := fx.mapComps(mt.Key(), mt.Elem())
+		mo := e.with(e.old).eval(x.Args[0])
+		return &Val{T: and("(= "+m.T+" "+mo.T+")",
+			"(= (select "+fx.heapGet(e.st, hn, hs)+" "+m.T+") (select "+fx.heapGet(e.old, hn, hs)+" "+mo.T+"))",
+			"(= (select "+fx.heapGet(e.st, vn, vs)+" "+m.T+") (select "+fx.heapGet(e.old, vn, vs)+" "+mo.T+"))"), Ty: boolT}
 	case "typeis":
 		v := argv(0)
 		t := e.typeExpr(x.Args[1])
@@ -921,15 +943,32 @@ func (e *Env) call(x *ast.CallExpr) *Val {
 	case "allocated":
 		v := argv(0)
 		t, _ := fx.ptrTerm(e.st, v)
+		if v.Ty != nil {
+			if _, isSl := v.Ty.Underlying().(*types.Slice); isSl {
+				t = "(sl_arr " + v.T + ")"
+			}
+		}
 		return &Val{T: "(and (< 0 " + t + ") (<= " + t + " " + e.st.Alloc + "))", Ty: boolT}
 	case "iface":
 		// iface(x, T): the interface value holding pointer x of dynamic type T
 		v := argv(0)
-		t := e.typeExpr(x.Args[1])
+		t := v.Ty
+		if len(x.Args) > 1 {
+			t = e.typeExpr(x.Args[1])
+		}
 		if t == nil {
 			return e.errorf("iface: unknown type")
 		}
 		return fx.makeIface(e.st, &Val{T: v.T, Ty: t}, types.NewInterfaceType(nil, nil))
+	case "mark":
+		// mark(t): no logical content (the trigger predicates are true everywhere in the intended
+		// interpretation); on the assumed side it makes the index term t an instantiation point
+		v := argv(0)
+		if e.goal {
+			return &Val{T: "true", Ty: boolT}
+		}
+		fx.u.uf("trg1", "(declare-fun trg1 (Int) Bool)")
+		return &Val{T: "(trg1 " + v.T + ")", Ty: boolT}
 	case "visited":
 		// visited(k) / visited(n, k): key k was already delivered by the (n-th) map range loop
 		n := 1
